@@ -290,6 +290,8 @@ def _gen_plan(family, rng, tier):
     p_reuse = rng.choice([0.0, 0.3, 0.6])
     for k in range(n_defs):
         nb = rng.choice([1, 1, 2, 3, 4, 6, 8])
+        if rng.random() < 0.12:
+            nb = 0          # a table split over messages: this one carries sequences only
         b_entries = []
         redefined = []
         for _ in range(nb):
@@ -327,7 +329,7 @@ def _gen_plan(family, rng, tier):
                 d_entries.append((sid, 'VERIF REPLICATION ONLY %06d' % sid, form))
                 nreg_d[sid] = form
                 nforms.add(sid)
-        for _ in range(rng.choice([0, 1, 1, 2, 3, 4])):
+        for _ in range(rng.choice([0, 1, 1, 2, 3, 4]) if nb else rng.choice([1, 2, 3])):
             if sub == 'c20-redef' and k >= 1 and rng.random() < 0.4 and [s for s in reg_d if s not in nforms]:
                 sid = rng.choice(sorted(s for s in reg_d if s not in nforms))
                 # a re-defined sequence must not (transitively) contain itself
